@@ -17,6 +17,23 @@ def check_c07(tier):
     if os.path.exists(os.path.join(vlib.TLA, "MC_IntegrityBlock.tla")):
         r = tlc("MC_IntegrityBlock", "SPECIFICATION Spec\nCONSTANTS MaxOps = %d\nINVARIANTS StackVerifies NewestFirst OutputShape NothingOnMismatch\nCHECK_DEADLOCK FALSE\n" % (2 if tier == "quick" else 3), "C07/mc", timeout=3000)
         rep.add_tlc("MC_IntegrityBlock", r)
+    # the TOOL's procedure as the steps it is (ask the key, build the attributes, obtain the signature, verify, add), against a
+    # strategy whose key may change between any two of them; with one request for the key every placement of the rotation is safe
+    nrot, nsig = (2, 2) if tier == "quick" else (4, 3)
+    cfg = "SPECIFICATION Spec\nCONSTANTS MaxRot = %d\nAskTwice = %s\nMaxSigs = %d\nINVARIANTS StackVerifies IdMatches\nVIEW View\nCHECK_DEADLOCK FALSE\n"
+    r = tlc("MC_IbTool", cfg % (nrot, "FALSE", nsig), "C07/tool", timeout=3000)
+    rep.add_tlc("MC_IbTool", r)
+    # ... and asking twice is NOT safe (the run Ask, BuildAttrs, Rotate, AskAgain, ObtainSig, VerifyAdd): the premise is necessary
+    try:
+        tlc("MC_IbTool", cfg % (nrot, "TRUE", nsig), "C07/tool-premise", timeout=3000)
+        raise Infra("MC_IbTool: the configuration that asks the strategy twice does not violate StackVerifies (model is vacuous)")
+    except Infra as e:
+        import re as _re
+        m = _re.search(r"see (\S+)", str(e))
+        whole = open(m.group(1), errors="replace").read() if m and os.path.exists(m.group(1)) else str(e)
+        if "Invariant StackVerifies is violated" not in whole:
+            raise
+        rep.add("premise_is_necessary:MC_IbTool", asking_the_strategy_twice_violates_StackVerifies=True)
     wd = workdir("C07")
     p = os.path.join(wd, "run.ndjson")
     vh_to_file(["ib-run", tier], p, timeout=3000)
